@@ -3,4 +3,5 @@ pub mod c14;
 pub mod c16;
 pub mod structs;
 pub mod c05;
+pub mod c03;
 pub mod c02;
